@@ -33,6 +33,14 @@ CLAIMED = {
   "Deductive proof over util/dnum for all inputs: the representation invariant (sign in -2..2, zero/infinity canonical, 16-digit maximised coefficient) is assumed on every Dnum parameter and PROVED on every result of New, FromInt, Neg, Abs, Add, Sub, add, Mul, Div, Frac, integer, Trunc, Round, Inf, Raw; New normalises exactly when no digit is dropped, rounds within one unit of the last kept digit otherwise, overflows to infinity and underflows to zero (loop completely unrolled, unwinding obligation discharged); ilog10/maxShift against the power-of-ten table; Compare is a total order (totality, antisymmetry, transitivity, Compare==0 iff Equal as lemmas over the contracts); FromInt/ToInt64 exact and inverse for |n| <= 10^16-1; align's scaling/rounding formula; sign/zero/infinity tables of Add, Mul, Div; no index out of range, no unintended integer overflow, no division by zero.",
   "Assumed: div128 (Knuth algorithm D) only by a range bound on its result; bits.LeadingZeros64 by its library contract; package tables pow10/halfpow10/Zero/One/... are constants (checked mechanically: no store outside their initialiser). NOT covered: the +-1 ulp accuracy of Add/Mul/Div results beyond the stated formulas, FromFloat/ToFloat/Format (floating point), FromStr/String parsing. Two genuine defects found by these obligations were fixed (see known_findings.jsonl).",
   "DESIGN.md §4 C27"),
+ "C26": (
+  "Deductive proof that the integer fast paths of OpAdd, OpAdd1, OpSub, OpMul, OpDiv and OpUnaryMinus return the exact integer result when it fits int64 and otherwise take the decimal path (no wrap-around), for all operands in the int64 range and every pair of integer representations (small int / SuInt64); the overflow-checked helpers addInt/subInt/mulInt are proved against mathematical integer arithmetic with exact 64-bit wrapping semantics; IntVal/Int64Val/SuIntToInt preserve the value; numeric Equal/Compare across representations compare integers exactly (shared with C28).",
+  "The *smi representation (a pointer into a static table, value recovered by unsafe pointer arithmetic) is abstracted by an uninterpreted value function with the assumed contracts SuInt(n)/toInt. Value.ToDnum/ToInt/Type are assumed interface contracts (including the closed-world fact that only *smi, SuInt64 and SuDnum report types.Number). The decimal path itself is covered by C27 only as far as dnum's contracts go. OpMod, shifts and bit operations, string-to-number parsing are NOT covered. The wrap-around defect found by these obligations was fixed (known_findings.jsonl).",
+  "DESIGN.md §4 C26"),
+ "C28": (
+  "Deductive proof for the scalar numeric classes: class order (Order: boolean < number < string < date); Equal across *smi / SuInt64 / SuDnum is exact integer equality when both sides are integers and field-wise equality between decimals; Equal implies equal Hash for every pair of numeric representations (integer-valued decimals hash like integers); Compare returns +-2 across classes, the exact integer order within integers and between an integer and an exactly-integer decimal, hence agrees with Equal; symmetry lemma for int/decimal equality.",
+  "Scope: numbers (three representations), class order of booleans/strings/dates via Order. NOT covered: SuStr/SuConcat/SuExcept comparisons, dates/timestamps order (see C33), objects and records (deepCompare, recursive), member lookup in SuObject itself (hash map). The corner of decimals with exponent 19 and coefficient >= 9223372036854775 (which ToInt64 rejects although some fit int64) is excluded by the contracts and stated as such. Assumed: same interface contracts and *smi abstraction as C26. Two genuine defects found here were fixed (known_findings.jsonl).",
+  "DESIGN.md §4 C28"),
 }
 
 NA = {
